@@ -1,3 +1,4 @@
+\* vector generation: every history of 1..3 calls with Expected for the 36 requests of GenReqs
 CONSTANTS
   Pats = {"/a", "/*"}
   HKinds = {"plain", "ownAll"}
